@@ -4247,7 +4247,17 @@ def r09_13(prog, rep, classes, rid='R09.13', minimum=12):
                           'line (OMPI) and MPIExec builds `-np 3 --hostfile '
                           'f` without `--ppn 2 --cpu-bind list:4-5:6-7:0-1`: '
                           'the ranks are not pinned to the cores of the '
-                          'placement')
+                          'placement'
+                          if any('pals' in v.lower() for v in badv) else
+                          'an installation / launcher name / setting whose '
+                          'text contains %s in any spelling: the folded text '
+                          'holds %s, the comparison with %s fails and the '
+                          'launcher is configured as if it were another '
+                          'flavour / variant (wrong host / rank options for '
+                          'every task)' % (
+                              ', '.join(repr(v) for v in badv),
+                              ', '.join(repr(_CASE[m](v)) for v in badv),
+                              ', '.join(repr(v) for v in badv)))
             # (information) a lower-case constant searched in the launcher
             # name as it is: the names of the factory table are upper case
             for n in walk(f.node, nested=True):
